@@ -259,7 +259,7 @@ def pad_path(ctx):
                 return NotImplemented
             try:
                 selfn = b["params"][0]["pat"]["name"] if b["params"] and b["params"][0].get("pat", {}).get("k") == "Bind" else "self"
-                T.Folder(f, env=dict(counters, **{selfn: "SELF"}), on_call=on_call, effects=True, local_calls=2).fold(body)
+                T.Folder(f, env=dict(counters, **{selfn: "SELF"}), on_call=on_call, effects=True, local_calls=2).run(body)
             except T.Trap as ex:
                 sink = "trap " + str(ex)
             except T.Undecidable as ex:
